@@ -521,6 +521,9 @@ func c28NewEnv() *c28Env {
 		deploy(c28WrapperAddr(k), c28Wrapper(k))
 		e.al = append(e.al, tuple(c28WrapperAddr(k)))
 	}
+	for _, c := range c28InheritContracts() {
+		deploy(c.addr, c.code)
+	}
 	deploy(c28ForwarderAddr, c28Forwarder())
 	e.al = append(e.al, tuple(c28ForwarderAddr))
 	e.alFor = map[common.Address]types.AccessList{}
@@ -586,6 +589,17 @@ func (a c28Result) diff(b c28Result) string {
 	return ""
 }
 
+// c28FirstDiff names the first 32-byte word in which a and b differ.
+func c28FirstDiff(a, b []byte) string {
+	for i := 0; i < len(a) || i < len(b); i += 32 {
+		wa, wb := a[min(i, len(a)):min(i+32, len(a))], b[min(i, len(b)):min(i+32, len(b))]
+		if !bytes.Equal(wa, wb) {
+			return fmt.Sprintf("first difference in word %d (offset 0x%x): %x vs %x; lengths %d vs %d", i/32, i, wa, wb, len(a), len(b))
+		}
+	}
+	return "equal"
+}
+
 func c28Hex(b []byte) string {
 	if len(b) > 80 {
 		return hex.EncodeToString(b[:80]) + fmt.Sprintf("…(%d bytes)", len(b))
@@ -611,7 +625,25 @@ func (e *c28Env) runInput(evm *EVM, to, target common.Address, input []byte, gas
 	sdb.Prepare(e.rules, c28Origin, evm.Context.Coinbase, &to, e.pre, al)
 	evm.StateDB = sdb
 	evm.SetTxContext(TxContext{Origin: c28Origin, GasPrice: uint256.NewInt(9), BlobHashes: []common.Hash{{1, 2, 3}}})
-	ret, left, cerr := evm.Call(c28Origin, to, input, NewGasBudget(gas, 0), new(uint256.Int))
+	return e.finish(sdb, func() ([]byte, GasBudget, error) {
+		return evm.Call(c28Origin, to, input, NewGasBudget(gas, 0), new(uint256.Int))
+	})
+}
+
+// runTop prepares a fresh copy of the base state on evm and executes f (any EVM entry point) as the top-level frame.
+func (e *c28Env) runTop(evm *EVM, f func() ([]byte, GasBudget, error)) c28Result {
+	sdb, err := state.New(e.root, e.db)
+	if err != nil {
+		panic(err)
+	}
+	sdb.Prepare(e.rules, c28Origin, evm.Context.Coinbase, nil, e.pre, e.al)
+	evm.StateDB = sdb
+	evm.SetTxContext(TxContext{Origin: c28Origin, GasPrice: uint256.NewInt(9), BlobHashes: []common.Hash{{1, 2, 3}}})
+	return e.finish(sdb, f)
+}
+
+func (e *c28Env) finish(sdb *state.StateDB, f func() ([]byte, GasBudget, error)) c28Result {
+	ret, left, cerr := f()
 	res := c28Result{ret: common.CopyBytes(ret), left: left, refund: sdb.GetRefund()}
 	if cerr != nil {
 		res.err = cerr.Error()
@@ -910,6 +942,18 @@ func TestVerif_C28(t *testing.T) {
 		r.Bound("seconds_sequences_and_depth", fmt.Sprintf("%.1f", time.Since(tStart).Seconds()))
 		// ---- (d) precompile result cache grids
 		c28PrecompileGrid(r, env, base)
+		if r.Expired() {
+			return
+		}
+		// ---- (e) inputs inherited by child frames
+		var dirtProgs []c28Prog
+		for _, i := range dirt {
+			dirtProgs = append(dirtProgs, P[i])
+		}
+		if r.Thorough() {
+			dirtProgs = P
+		}
+		c28Inherited(r, env, dirtProgs)
 		if onlyGrid {
 			r.NotExhaustive("VERIF_C28_PART=grid: sequence and depth parts skipped")
 		}
@@ -1363,6 +1407,290 @@ func c28PrecompileGrid(r *mc.R, env *c28Env, cold []c28Result) {
 	r.Bound("cacheable_precompiles", len(grids))
 	r.Bound("normalising_precompiles", normalising)
 	r.Bound("precompile_grid_inputs_total", total)
+}
+
+// ---------------------------------------------------------------------------
+// (e) inputs a child frame inherits from the frame-creating opcode must not alias pooled / arena memory
+
+var (
+	c28ObsLibAddr = c28Addr(3200)
+	c28InhValue   = uint64(0x234) // value / endowment given to the child (differs from everything the child pushes)
+	c28InhTopVal  = uint64(0x77)  // value of the top-level call to the parent (what DELEGATECALL forwards)
+	c28InhSalt    = uint64(0x5a17c0de)
+	c28InhData    = []byte("inherited-calldata:0123456789abcdefghijkl") // 40 bytes
+	c28InhKinds   = []OpCode{CALL, CALLCODE, DELEGATECALL, STATICCALL, CREATE, CREATE2}
+)
+
+const (
+	c28InhMaxK   = 10
+	c28ObsLen    = 0x1e0
+	c28ParentFix = 0x180
+)
+
+func c28InhParentAddr(kind, k int) common.Address { return c28Addr(3000 + 16*kind + k) }
+func c28InhChildAddr(k int) common.Address        { return c28Addr(3300 + k) }
+
+// c28ObsProgram: push k distinctive stack items and touch memory, drop them, THEN observe every inherited input and return
+// the observations (for init code: deploy them as the contract code).
+func c28ObsProgram(k int) []byte {
+	a := c28New()
+	for i := 1; i <= k; i++ {
+		a.pushBytes(bytes.Repeat([]byte{0xd0 + byte(i)}, 32))
+	}
+	a.mstore(0x80, c28Junk)
+	for i := 0; i < k; i++ {
+		a.op(POP)
+	}
+	st := func(off uint64) { a.push(off).op(MSTORE) }
+	a.op(CALLVALUE)
+	st(0x400)
+	a.op(CALLER)
+	st(0x420)
+	a.op(ADDRESS)
+	st(0x440)
+	a.op(ORIGIN)
+	st(0x460)
+	a.op(CALLDATASIZE)
+	st(0x480)
+	a.push(0).op(CALLDATALOAD)
+	st(0x4a0)
+	a.push(32).op(CALLDATALOAD)
+	st(0x4c0)
+	a.op(CODESIZE)
+	st(0x4e0)
+	a.push(64).push(0).push(0x500).op(CALLDATACOPY)
+	a.op(CODESIZE).push(0).push(0x700).op(CODECOPY)
+	a.op(CODESIZE).push(0x700).op(KECCAK256)
+	st(0x540)
+	// what a DELEGATECALLed library sees (value, caller, address are forwarded)
+	a.push(96).push(0x560).push(0).push(0).pushBytes(c28ObsLibAddr.Bytes()).op(GAS, DELEGATECALL)
+	st(0x5c0)
+	return a.ret(0x400, c28ObsLen).bytes()
+}
+
+func c28ObsLib() []byte {
+	a := c28New()
+	a.op(CALLVALUE).push(0).op(MSTORE)
+	a.op(CALLER).push(0x20).op(MSTORE)
+	a.op(ADDRESS).push(0x40).op(MSTORE)
+	return a.ret(0, 96).bytes()
+}
+
+var c28Sentinels = func() [][]byte {
+	var out [][]byte
+	for i := 0; i < 5; i++ {
+		out = append(out, bytes.Repeat([]byte{0xa1 + byte(i)}, 32))
+	}
+	return out
+}()
+
+// c28InhParent: sentinels on the stack and in memory, the frame-creating opcode, then a dump of everything the parent can see.
+func c28InhParent(kind OpCode, k int) []byte {
+	a := c28New()
+	for _, sv := range c28Sentinels {
+		a.pushBytes(sv)
+	}
+	a.mstore(0x00, bytes.Repeat([]byte{0x51}, 32)).mstore(0x20, bytes.Repeat([]byte{0x52}, 32))
+	payload := c28InhData
+	if kind == CREATE || kind == CREATE2 {
+		payload = c28ObsProgram(k)
+	}
+	L := uint64(len(payload))
+	a.push(L).pushLabel("data").push(0x100).op(CODECOPY)
+	child := c28InhChildAddr(k)
+	switch kind {
+	case CALL, CALLCODE:
+		a.push(64).push(0x200).push(L).push(0x100).push(c28InhValue).pushBytes(child.Bytes()).op(GAS, kind)
+	case DELEGATECALL, STATICCALL:
+		a.push(64).push(0x200).push(L).push(0x100).pushBytes(child.Bytes()).op(GAS, kind)
+	case CREATE:
+		a.push(L).push(0x100).push(c28InhValue).op(CREATE)
+	case CREATE2:
+		a.push(c28InhSalt).push(L).push(0x100).push(c28InhValue).op(CREATE2)
+	}
+	a.op(DUP1).push(0x1000).op(MSTORE)
+	a.op(RETURNDATASIZE).push(0x1020).op(MSTORE)
+	a.op(DUP1, EXTCODESIZE).push(0x1160).op(MSTORE)
+	lenWord := uint64(0x1020)
+	if kind == CREATE || kind == CREATE2 {
+		a.op(DUP1, EXTCODESIZE).push(0).push(0x1180).op(DUP4, EXTCODECOPY)
+		lenWord = 0x1160
+	} else {
+		a.op(RETURNDATASIZE).push(0).push(0x1180).op(RETURNDATACOPY)
+	}
+	a.op(POP)
+	for i := range c28Sentinels {
+		a.push(0x1040 + 32*uint64(i)).op(MSTORE)
+	}
+	a.push(0).op(MLOAD).push(0x10e0).op(MSTORE)
+	a.push(0x20).op(MLOAD).push(0x1100).op(MSTORE)
+	a.push(0x200).op(MLOAD).push(0x1120).op(MSTORE)
+	a.push(0x220).op(MLOAD).push(0x1140).op(MSTORE)
+	a.push(lenWord).op(MLOAD).push(c28ParentFix).op(ADD).push(0x1000).op(RETURN)
+	a.mark("data").raw(payload)
+	return a.bytes()
+}
+
+type c28Deployed struct {
+	addr common.Address
+	code []byte
+}
+
+func c28InheritContracts() []c28Deployed {
+	out := []c28Deployed{{c28ObsLibAddr, c28ObsLib()}}
+	for k := 0; k <= c28InhMaxK; k++ {
+		out = append(out, c28Deployed{c28InhChildAddr(k), c28ObsProgram(k)})
+		for ki, kind := range c28InhKinds {
+			out = append(out, c28Deployed{c28InhParentAddr(ki, k), c28InhParent(kind, k)})
+		}
+	}
+	return out
+}
+
+// c28InhExpected builds what the parent must return if the child frame behaves like a pure function of its inputs.
+func c28InhExpected(kind OpCode, k int, parent common.Address, obs []byte) []byte {
+	var w [][]byte
+	isCreate := kind == CREATE || kind == CREATE2
+	switch kind {
+	case CREATE:
+		w = append(w, common.LeftPadBytes(crypto.CreateAddress(parent, 1).Bytes(), 32), c28Word(0))
+	case CREATE2:
+		w = append(w, common.LeftPadBytes(crypto.CreateAddress2(parent, common.BigToHash(new(big.Int).SetUint64(c28InhSalt)), crypto.Keccak256(c28ObsProgram(k))).Bytes(), 32), c28Word(0))
+	default:
+		w = append(w, c28Word(1), c28Word(uint64(len(obs))))
+	}
+	for i := len(c28Sentinels) - 1; i >= 0; i-- {
+		w = append(w, c28Sentinels[i])
+	}
+	w = append(w, bytes.Repeat([]byte{0x51}, 32), bytes.Repeat([]byte{0x52}, 32))
+	if isCreate {
+		// the init code sits at memory 0x100.. and may reach into the words dumped from 0x200
+		over := c28Zeros(64)
+		if init := c28ObsProgram(k); len(init) > 0x100 {
+			copy(over, init[0x100:])
+		}
+		w = append(w, over, c28Word(uint64(len(obs))))
+	} else {
+		w = append(w, obs[:64], c28Word(0))
+	}
+	w = append(w, obs)
+	return bytes.Join(w, nil)
+}
+
+func c28Inherited(r *mc.R, env *c28Env, dirtiers []c28Prog) {
+	maxK := mc.Pick(r, 6, c28InhMaxK)
+	r.Bound("inherited.max_items_pushed_by_child", maxK)
+	r.Bound("inherited.frame_creating_opcodes", len(c28InhKinds))
+	type job struct{ ki, k int }
+	var jobs []job
+	for ki := range c28InhKinds {
+		for k := 0; k <= maxK; k++ {
+			jobs = append(jobs, job{ki, k})
+		}
+	}
+	// depth-0 baselines on a pristine EVM (sequential: the pools are reset)
+	bevm := env.newEVM()
+	top := func(evm *EVM, kind OpCode, k int, parent common.Address) c28Result {
+		gas := NewGasBudget(5_000_000, 0)
+		val := uint256.NewInt(c28InhValue)
+		child := c28InhChildAddr(k)
+		return env.runTop(evm, func() ([]byte, GasBudget, error) {
+			switch kind {
+			case CALL:
+				return evm.Call(parent, child, c28InhData, gas, val)
+			case CALLCODE:
+				return evm.CallCode(parent, child, c28InhData, gas, val)
+			case DELEGATECALL:
+				return evm.DelegateCall(c28Origin, parent, child, c28InhData, gas, uint256.NewInt(c28InhTopVal))
+			case STATICCALL:
+				return evm.StaticCall(parent, child, c28InhData, gas)
+			case CREATE:
+				ret, _, left, err := evm.Create(parent, c28ObsProgram(k), gas, val)
+				return ret, left, err
+			default:
+				ret, _, left, err := evm.Create2(parent, c28ObsProgram(k), gas, val, uint256.NewInt(c28InhSalt))
+				return ret, left, err
+			}
+		})
+	}
+	nested := func(evm *EVM, parent common.Address) c28Result {
+		return env.finishCall(evm, parent)
+	}
+	obs := make([][]byte, len(jobs))
+	for ji, j := range jobs {
+		kind, parent := c28InhKinds[j.ki], c28InhParentAddr(j.ki, j.k)
+		c28Pristine(bevm)
+		b := top(bevm, kind, j.k, parent)
+		obs[ji] = b.ret
+		c := map[string]any{"part": "inherited-baseline", "op": kind.String(), "k": j.k}
+		r.Case(c, func() error {
+			if b.err != "" || len(b.ret) != c28ObsLen {
+				return fmt.Errorf("depth-0 %s of the observer failed: %q, %d bytes", kind, b.err, len(b.ret))
+			}
+			// values known by construction
+			wantVal := c28InhValue
+			switch kind {
+			case DELEGATECALL:
+				wantVal = c28InhTopVal
+			case STATICCALL:
+				wantVal = 0
+			}
+			if !bytes.Equal(b.ret[:32], c28Word(wantVal)) || !bytes.Equal(b.ret[0x160:0x180], c28Word(wantVal)) {
+				return fmt.Errorf("depth-0 %s: CALLVALUE seen by the child %x / through DELEGATECALL %x, want %x", kind, b.ret[:32], b.ret[0x160:0x180], wantVal)
+			}
+			if kind != CREATE && kind != CREATE2 {
+				if !bytes.Equal(b.ret[0x80:0xa0], c28Word(uint64(len(c28InhData)))) || !bytes.Equal(b.ret[0x100:0x100+len(c28InhData)], c28InhData) {
+					return fmt.Errorf("depth-0 %s: call data seen by the child differs from the call data passed", kind)
+				}
+			}
+			c28Pristine(bevm)
+			n := nested(bevm, parent)
+			if n.err != "" {
+				return fmt.Errorf("parent frame failed: %s", n.err)
+			}
+			if want := c28InhExpected(kind, j.k, parent, b.ret); !bytes.Equal(n.ret, want) {
+				return fmt.Errorf("%s child (pushes %d items first) run from a parent frame on a pristine EVM: the parent's view differs from that of a child behaving as at depth 0: %s", kind, j.k, c28FirstDiff(n.ret, want))
+			}
+			return nil
+		})
+		r.DistinctHash(mc.Hash64(fmt.Sprint("inh-base", j)))
+	}
+	// after every dirtier on a shared EVM: depth-0 observation unchanged, nested run as expected
+	r.Parallel(len(dirtiers), func(di int) {
+		evm := env.newEVM()
+		defer evm.Release()
+		d := dirtiers[di]
+		for ji, j := range jobs {
+			if r.Expired() {
+				return
+			}
+			kind, parent := c28InhKinds[j.ki], c28InhParentAddr(j.ki, j.k)
+			c := map[string]any{"part": "inherited", "dirtier": d.name, "op": kind.String(), "k": j.k}
+			r.Case(c, func() error {
+				env.run(evm, d.addr, d.addr, c28Gas)
+				if b := top(evm, kind, j.k, parent); b.err != "" || !bytes.Equal(b.ret, obs[ji]) {
+					return fmt.Errorf("depth-0 %s observer after %s: %s / %q, isolated run: %s", kind, d.name, c28Hex(b.ret), b.err, c28Hex(obs[ji]))
+				}
+				env.run(evm, d.addr, d.addr, c28Gas)
+				n := nested(evm, parent)
+				if n.err != "" {
+					return fmt.Errorf("parent frame failed: %s", n.err)
+				}
+				if want := c28InhExpected(kind, j.k, parent, obs[ji]); !bytes.Equal(n.ret, want) {
+					return fmt.Errorf("%s child (pushes %d items first) run from a parent frame after %s: the parent's view differs from that of a child behaving as at depth 0: %s", kind, j.k, d.name, c28FirstDiff(n.ret, want))
+				}
+				return nil
+			})
+			r.DistinctHash(mc.Hash64(fmt.Sprint("inh", di, j)))
+		}
+	})
+}
+
+// finishCall runs the top-level call origin -> parent with value c28InhTopVal.
+func (e *c28Env) finishCall(evm *EVM, parent common.Address) c28Result {
+	return e.runTop(evm, func() ([]byte, GasBudget, error) {
+		return evm.Call(c28Origin, parent, nil, NewGasBudget(c28OuterGas, 0), uint256.NewInt(c28InhTopVal))
+	})
 }
 
 var _ = ecdsa.PrivateKey{}
